@@ -736,10 +736,15 @@ class CSSCalc(CSSFunction):
 
         types = self._prods  # rename!
 
-        _operator = Choice(Prod(name='Operator */',
-                                match=lambda t, v: v in '*/',
-                                toSeq=lambda t, tokens: (t[0], t[1])
-                                ),
+        _operator = Choice(Sequence(
+                               Prod(name='Operator */',
+                                    match=lambda t, v: v in '*/',
+                                    toSeq=lambda t, tokens: (t[0], t[1])
+                                    ),
+                               # "1px* 2": whitespace may follow the
+                               # operator also if none precedes it
+                               PreDef.S(optional=True)
+                           ),
                            Sequence(
                                PreDef.S(),
                                Choice(
